@@ -23,12 +23,18 @@ def without_ops(program, drop):
     return p
 
 
-def ddmin_ops(program, still_fails, max_trials=250):
-    """Delta-debugging over the op list (symbolic references keep sub-sequences valid)."""
+def ddmin_ops(program, still_fails, max_trials=250, budget_s=45.0):
+    """Delta-debugging over the op list (symbolic references keep sub-sequences valid).  Bounded by
+    a trial count and a wall budget: minimisation only serves the reader of the replay file."""
+    import time as _time
     ops = list(program['ops'])
     trials = [0]
+    t0 = _time.perf_counter()
 
     def test(cand):
+        if _time.perf_counter() - t0 > budget_s:
+            trials[0] = max_trials + 1000
+            return False
         trials[0] += 1
         try:
             return still_fails(dict(program, ops=cand))
